@@ -16,6 +16,7 @@ type Violation struct {
 	Where  string            `json:"where"`
 	Inputs map[string]string `json:"inputs"` // name -> hex (bytes) or decimal
 	Params map[string]int    `json:"params,omitempty"`
+	Bytes  int               `json:"bytes,omitempty"`
 }
 
 type Obligation struct {
